@@ -66,7 +66,7 @@ def gen_records(rng: random.Random, nrec: int, *, strict_ok=True, cps=None):
         recs.append([p, u, psyn, usyn, opt(pat)])
     if not strict_ok and recs:
         # inject a clash of a chosen kind
-        kind = rng.choice(["cc", "cs", "ss", "ucc", "ucs", "uss", "both", "self_p", "self_u"])
+        kind = rng.choice(["cc", "cs", "ss", "ucc", "ucs", "uss", "both", "self_p", "self_u", "twin_pat", "twin_perm", "twin_comma", "twin"])
         i, j = rng.randrange(len(recs)), rng.randrange(len(recs))
         ri, rj = recs[i], recs[j]
         if kind == "cc":
@@ -88,6 +88,23 @@ def gen_records(rng: random.Random, nrec: int, *, strict_ok=True, cps=None):
         elif kind == "both":
             rj[2] = rj[2] + [ri[0]]
             rj[3] = rj[3] + [ri[1]]
+        elif kind.startswith("twin"):
+            # a second record that agrees with ri on prefix and URI prefix (and, up to order / joining, on the synonyms)
+            import copy as _copy
+
+            t = _copy.deepcopy(ri)
+            if kind == "twin_pat":
+                t[4] = opt("^x$") if t[4] is None else None
+            elif kind == "twin_perm":
+                if len(t[2]) < 2:
+                    ri[2] = ri[2] + [ri[0] + "_s1", ri[0] + "_s2"]
+                    t[2] = list(ri[2])
+                t[2] = list(reversed(t[2]))
+            elif kind == "twin_comma":
+                if len(ri[2]) < 2:
+                    ri[2] = [ri[0] + "_a", ri[0] + "_b"]
+                t[2] = [",".join(sorted(ri[2]))]
+            recs.insert(rng.randrange(len(recs) + 1), t)
         elif kind == "self_p":
             ri[2] = ri[2] + [ri[0]]
         elif kind == "self_u":
